@@ -24,7 +24,9 @@ TCov == /\ IsEvent("cov") /\ UNCHANGED lsvars /\ Tr[l].exact
            ELSE /\ Tr[l].det = JtJ(1, 1) * JtJ(2, 2) - JtJ(1, 2) * JtJ(1, 2)
                 /\ Tr[l].cdet = <<<<Tr[l].var * A[1] * A[1] * JtJ(2, 2), -Tr[l].var * A[1] * A[2] * JtJ(1, 2)>>,
                                   <<-Tr[l].var * A[1] * A[2] * JtJ(1, 2), Tr[l].var * A[2] * A[2] * JtJ(1, 1)>>>>
-TraceNext == TReset \/ TSetData \/ TFill \/ TSetW \/ TWeights \/ TPrecond \/ TEstimate \/ TCov
+\* solver covariance on a generic real-valued problem: relative residual against variance * A (J^T J)^-1 A^T (units of 1e-12)
+TCovGen == IsEvent("covgen") /\ UNCHANGED lsvars /\ Tr[l].res <= (IF Tr[l].float = 1 THEN 2000000000 ELSE 100000)
+TraceNext == TCovGen \/ TReset \/ TSetData \/ TFill \/ TSetW \/ TWeights \/ TPrecond \/ TEstimate \/ TCov
 TraceSpec == TraceInit /\ [][TraceNext]_tvars
 TraceAccepted == TLCGet("stats").diameter - 1 = Len(Tr)
 =============================================================================
